@@ -1,5 +1,6 @@
 import Obao.Proofs.TransitNoPanic
 import Obao.Proofs.TransitFaults
+import Obao.Proofs.TransitBatch
 import Obao.Proofs.TransitAtoi
 /-!
 C17 — transit encryption round-trips, binds its inputs and honours version limits.
@@ -367,6 +368,62 @@ without key material. -/
 theorem no_panic (ops : List Op) (hff : FF ops) (o : Op) (ho : o.faultFree = true) :
     (step (run init ops) o).2 ≠ .panic :=
   nopanic_step (archive_invariant ops hff) o ho
+
+/-! ### batch requests (`batch_input`) -/
+
+/-- **batch_is_pointwise.** A batch request (encrypt, decrypt or rewrap items; not refused as a whole for being empty,
+mixing items with and without context, or naming no key) is the per-item map of the single-request semantics: its
+i-th result is the result of the single request on the i-th item, processed in the state the earlier items left
+(they can only have appended artifacts), and the state after the batch is the state after processing the items one by
+one. Nothing carries over from one item to the next — in particular no context, key version or associated data. -/
+theorem batch_is_pointwise (st : St) (items : List Op) (h1 : items ≠ []) (h2 : ctxMixed items = false)
+    (h3 : st.pol.isSome = true) :
+    batch st items = (run st items, .ok (outs st items)) ∧ (outs st items).length = items.length ∧
+      ∀ i o, items[i]? = some o → (outs st items)[i]? = some (step (run st (items.take i)) o).2 := by
+  refine ⟨?_, outs_length st items, fun i o hi => outs_get st items i o hi⟩
+  unfold batch
+  have e1 : items.isEmpty = false := by cases items with | nil => exact absurd rfl h1 | cons _ _ => rfl
+  have e3 : st.pol.isNone = false := by cases hp : st.pol with | none => rw [hp] at h3; cases h3 | some _ => rfl
+  simp [e1, h2, e3]
+
+/-- **batch_decrypt_binds.** `binds_inputs` for every item of a decrypt batch after any fault-free history: an item
+that yields a plaintext yields the plaintext sealed in ITS ciphertext, and only with ITS OWN untouched body, version,
+associated data and (derived keys) context — whatever the other items of the batch supplied. -/
+theorem batch_decrypt_binds (ops : List Op) (hff : FF ops) (items : List Op)
+    (hdec : ∀ o ∈ items, ∃ hd vm bm c a, o = .decrypt hd vm bm c a)
+    (i h : Nat) (vm : VMut) (bm : BMut) (ctx aad m : String)
+    (hi : items[i]? = some (.decrypt h vm bm ctx aad))
+    (hout : (outs (run init ops) items)[i]? = some (.okPlain m)) :
+    ∃ a p, artAt (run init ops) h .enc = some a ∧ (run init ops).pol = some p ∧
+      m = a.msg ∧ bm = .same ∧ denotes a vm a.ver ∧ p.minDec ≤ a.ver ∧ a.ver ≤ p.latest ∧
+      aad = a.aad ∧ (p.derived = true → ctx = a.dctx) := by
+  rw [outs_get _ items i _ hi] at hout
+  rw [run_decrypts _ _ (fun o ho => hdec o (List.mem_of_mem_take ho))] at hout
+  exact binds_inputs ops hff h vm bm ctx aad m (Option.some.inj hout)
+
+/-- **batch_roundtrip.** `roundtrip` for every item of an encrypt batch after any fault-free history: the ciphertext
+returned for item i decrypts, with item i's own context and associated data, to item i's plaintext. -/
+theorem batch_roundtrip (ops : List Op) (hff : FF ops) (items : List Op) (hitems : FF items)
+    (i : Nat) (ver : Int) (ctx aad nonce plain : String) (h v : Nat)
+    (hi : items[i]? = some (.encrypt ver ctx aad nonce plain))
+    (hout : (outs (run init ops) items)[i]? = some (.okArt h v)) :
+    (decrypt (run (run init ops) (items.take (i + 1))) h .same .same ctx aad).2 = .okPlain plain := by
+  rw [outs_get _ items i _ hi] at hout
+  rw [run_take_succ _ items i _ hi, ← run_append]
+  have := roundtrip (ops ++ items.take i) (ff_append hff (ff_take hitems i)) ver ctx aad nonce plain h v
+    (by rw [run_append]; exact Option.some.inj hout)
+  rw [run_append] at this ⊢
+  exact this
+
+/-- non-vacuity of the batch theorems: a decrypt batch whose first item supplies associated data and whose second
+    does not — each item is judged with its own; and a batch mixing items with and without context is refused whole -/
+example :
+    let st := (encrypt (encrypt (run init [.new .aes256 false false]) 0 "-" "61" "-" "70").1 0 "-" "-" "-" "71").1
+    ctxMixed [.decrypt 1 .same .same "-" "61", .decrypt 1 .same .same "-" "-", .decrypt 2 .same .same "-" "-"] = false ∧
+    st.pol.isSome = true ∧
+    outs st [.decrypt 1 .same .same "-" "61", .decrypt 1 .same .same "-" "-", .decrypt 2 .same .same "-" "-"]
+      = [.okPlain "70", .err "auth", .okPlain "71"] ∧
+    ctxMixed [.decrypt 1 .same .same "-" "61", .decrypt 2 .same .same "63" "-"] = true := by decide
 
 /-! ### failing storage `Put`s
 
